@@ -200,7 +200,7 @@ def _is_future_import_first(import_from):
 def _iter_definition_exprs_from_lists(exprlist):
     def check_expr(child):
         if child.type == 'atom':
-            if child.children[0] == '(':
+            if child.children[0] in ('(', '['):
                 testlist_comp = child.children[1]
                 if testlist_comp.type == 'testlist_comp':
                     yield from _iter_definition_exprs_from_lists(testlist_comp)
@@ -209,9 +209,6 @@ def _iter_definition_exprs_from_lists(exprlist):
                     # It's a paren that doesn't do anything, like 1 + (1)
                     yield from check_expr(testlist_comp)
                     return
-            elif child.children[0] == '[':
-                yield testlist_comp
-                return
         yield child
 
     if exprlist.type in _STAR_EXPR_PARENTS:
